@@ -8,7 +8,8 @@ use serde_json::json;
 
 fn lens<A: Cx>(d: &mut Drv<A>, scale: usize) -> Vec<usize> {
     let w = A::BITS as usize;
-    let mut v = vec![5 * 64 / w + 1, 300 + d.rng.below(9), 1021 + d.rng.below(9)];
+    // ... and one beyond 128 machine words (8192 bits)
+    let mut v = vec![5 * 64 / w + 1, 300 + d.rng.below(9), 1021 + d.rng.below(9), 8192 / w + 70 + d.rng.below(40)];
     if scale > 1 {
         v.extend([9 * 64 / w - 1, 17 * 64 / w, 2040 + d.rng.below(20), 4099]);
     }
